@@ -1153,6 +1153,7 @@ class Models:
         return self.resident_bound_fields.get(getattr(interp, "root_adt", None), frozenset())
     # P1 relies on K's Eq/Hash being consistent (a stored key is found again). Memory safety must not: C03.R7 re-runs with this off.
     assume_consistent_eq = True
+    identify_own_key = True
     # scalar fields of a composite that hold the same value as the cap of one of its lists, e.g. protected_size -> protected
     # (filled in by rules/lib/composite.py from the constructors)
     cap_alias = {}
@@ -2159,7 +2160,12 @@ class Models:
             ev = {"ev": "call", "q": info["q"], "hm": kind, "recv": X, "keysrc": ks, "present": present, "id": cid, "args": info["args"],
                   "ln": info["ln"], "bb": info["bb"], "unwind": info["unwind"], "user": True, "pruned": known is not None, "f": info["f"]}
             if present:
-                node = own if own is not None else st.member.get(("node", X, ks)) or ("node", cid, X, ks)
+                if own is not None and not self.identify_own_key:
+                    # "orphan" mode (C18.R6): after a leak-type unwind a list may hold a linked-but-unindexed node next to a re-inserted
+                    # copy of its key, so the node the index returns for a node's own key need not be that node
+                    node = st.member.get(("node", X, ks)) or ("node", cid, X, ks)
+                else:
+                    node = own if own is not None else st.member.get(("node", X, ks)) or ("node", cid, X, ks)
                 ev["node"] = node
             interp.event(s2, fr, ev)
             if kind == "remove":
